@@ -472,6 +472,37 @@ pub fn exec(a: &[&str]) -> (String, String) {
             let oracle = read_oracle(&obs, kind, reference);
             (if skip { "SKIP".into() } else { obs }, oracle)
         }
+        "xz_big" => {
+            // one block of n zero bytes (n beyond 2^24, where the index integers need 4 and 5 bytes), in
+            // both directions against the reference implementation; too large for the extracted model
+            // (it answers SKIP), decided by the oracle alone
+            let n: usize = a[1].parse().unwrap();
+            let dir = a[2];
+            let data = vec![0u8; n];
+            let verdict = if dir == "ref2crate" {
+                match reflib::xz_encode_easy(0, 1, &data) {
+                    Err(e) => format!("FAIL reference encoder failed ({e})"),
+                    Ok(f) => match guarded(|| { let mut out = Vec::new(); XZReader::new(Cursor::new(f), true).read_to_end(&mut out)?; Ok(out) }) {
+                        Outcome::Ok(d) if d == data => "ok".into(),
+                        Outcome::Ok(d) => format!("FAIL the crate decodes the reference's file to {} bytes instead of {}", d.len(), n),
+                        Outcome::Err(c) => format!("FAIL liblzma decodes the file, the crate rejects it (kind {c})"),
+                        Outcome::Panic(_) => "FAIL reader panicked".into(),
+                    },
+                }
+            } else {
+                let o = Opts { lc: 3, lp: 0, pb: 2, dict: 1 << 16, nice: 273, mode: 0, mf: 0, depth: 4 };
+                match xz_impl_write(1, None, &[], &o, &[data.clone()], &[]) {
+                    Outcome::Ok(f) => match reflib::xz_decode(&f) {
+                        Ok(d) if d == data => "ok".into(),
+                        Ok(_) => "FAIL liblzma decodes the output to different bytes".into(),
+                        Err(e) => format!("FAIL liblzma rejects the output ({e})"),
+                    },
+                    Outcome::Err(c) => format!("FAIL writer returned error kind {c} for in-range options"),
+                    Outcome::Panic(_) => "FAIL writer panicked".into(),
+                }
+            };
+            ("SKIP".into(), verdict)
+        }
         "xz_spec" => {
             let skip = a[2] == "1";
             let file = unhex(a[3]);
